@@ -117,6 +117,8 @@ def enumerate_mutants():
 def run(ids):
     muts = {m["id"]: m for m in enumerate_mutants()}
     for mid in ids:
+        if mid not in muts:
+            print(json.dumps(dict(id=mid, verdict="unknown-id"))); continue
         m = muts[mid]
         wt = "/tmp/mut-%s" % mid
         subprocess.run(["git", "-C", REPO, "worktree", "add", "-q", "--detach", wt, "HEAD"], check=True)
